@@ -20,6 +20,7 @@ def main():
             fs = [O.c01_publish]
         if T.kind == 'pull':
             fs.append(O.c01_pull_offers)
+        fs.append(O.inv_preserved)      # the pre-state invariant of all one-step obligations is inductive
         T.oracle = (lambda fs, T: lambda ex, S: [x for f in fs for x in f(ex, S, T)])(fs, T)
         run_transition(chk, prog, T, max_paths=300000)
     chk.bounds = {'tables': 'per obligation (see per_obligation.bounds)', 'steps': 1, 'pre-state': 'arbitrary rows satisfying the representation invariant'}
